@@ -178,6 +178,20 @@ theorem step_spec {file : List Cat} {af0 : Bool} {nBins nMag : Nat} {st : St}
     obtain ⟨st', he, hi', _, _⟩ := hER
     obtain ⟨st'', hp, hi'', _, hn'', _⟩ := pass_spec hi'
     simp only [step, he, hp, specOut]; exact ⟨trivial, hi'', hn''⟩
+  | pseudolikelihoodTest =>
+    obtain ⟨st', he, hi', _, _⟩ := hER
+    obtain ⟨st'', hp, hi'', _, hn'', _⟩ := pass_spec hi'
+    simp only [step, he, hp, specOut]; exact ⟨trivial, hi'', hn''⟩
+  | resampledMagnitudeTest =>
+    obtain ⟨st', he, hi', _, _⟩ := hER
+    obtain ⟨st'', hp, hi'', _, _, _⟩ := pass_spec hi'
+    obtain ⟨st''', hp2, hi''', _, hn''', _⟩ := pass_spec hi''
+    simp only [step, he, hp, hp2, specOut]; exact ⟨trivial, hi''', hn'''⟩
+  | mllMagnitudeTest =>
+    obtain ⟨st', he, hi', _, _⟩ := hER
+    obtain ⟨st'', hp, hi'', _, _, _⟩ := pass_spec hi'
+    obtain ⟨st''', hp2, hi''', _, hn''', _⟩ := pass_spec hi''
+    simp only [step, he, hp, hp2, specOut]; exact ⟨trivial, hi''', hn'''⟩
 
 /-- **refinement**: from any state satisfying the invariant, every operation history — of any length, in any
     order — produces exactly the outputs of the specification, a function of the once-filtered catalogs alone -/
@@ -279,6 +293,7 @@ def repay (f : Option Nat → Option Nat) (g : Nat → Nat) (k : Bool → Bool) 
 
 def repayOut (f : Option Nat → Option Nat) (g : Nat → Nat) (k : Bool → Bool) : Out → Out
   | .cats l => .cats (l.map (repay f g k))
+  | .cats2 l₁ l₂ => .cats2 (l₁.map (repay f g k)) (l₂.map (repay f g k))
   | o => o
 
 theorem filtered_repay (f : Option Nat → Option Nat) (g : Nat → Nat) (k : Bool → Bool) (file : List Cat)
@@ -359,6 +374,220 @@ theorem expectedRates_on_forecast_grid (cats : List Cat) (hne : cats ≠ []) (g 
   simp only [spec, specOut, List.map_cons, List.map_nil, totals_repay, List.length_map, filtered_length]
   simp [totals, cnt]
 
+/-! ### round 4: more of the evaluations, user-given `n_cat` for streams, the configured filters one by one -/
+
+/-- a streamed forecast constructed with ANY `n_cat=` (smaller or larger than the number of catalogs the loader
+    yields, or right) satisfies the invariant: nothing reads `n_cat` before the first pass has overwritten it -/
+theorem inv_initStreamN (file : List Cat) (store af : Bool) (nCat : Option Nat) (nBins nMag : Nat) :
+    Inv file af nBins nMag (initStreamN file store af nCat nBins nMag) :=
+  ⟨rfl, rfl, rfl, rfl, Or.inr ⟨rfl, rfl, rfl, rfl, Or.inl ⟨rfl, rfl⟩⟩, Or.inl rfl, Or.inl rfl⟩
+
+/-- **C13 for streamed forecasts whatever `n_cat` the user passed**: every history gives the specification's
+    outputs; in particular the reported `n_cat` is the number of catalogs of a single pass after every operation and
+    the expected rates are divided by that number, not by the user's -/
+theorem refines_spec_stream_any_ncat (file : List Cat) (hne : file ≠ []) (store af : Bool) (nCat : Option Nat)
+    (nBins nMag : Nat) (ops : List Op) :
+    run (initStreamN file store af nCat nBins nMag) ops = spec (filtered file af) nBins nMag ops :=
+  refines_spec hne ops _ (inv_initStreamN file store af nCat nBins nMag)
+
+/-- … hence the user's number is unobservable through any history -/
+theorem stream_ncat_irrelevant (file : List Cat) (hne : file ≠ []) (store af : Bool) (n₁ n₂ : Option Nat)
+    (nBins nMag : Nat) (ops : List Op) :
+    run (initStreamN file store af n₁ nBins nMag) ops = run (initStreamN file store af n₂ nBins nMag) ops := by
+  rw [refines_spec_stream_any_ncat file hne, refines_spec_stream_any_ncat file hne]
+
+/-- an evaluation that iterates the forecast twice (resampled / MLL magnitude test) sees the same catalogs in both
+    passes — the once-filtered ones — wherever it sits in a history -/
+theorem two_pass_evaluations_see_one_forecast {file : List Cat} {af0 : Bool} {nBins nMag : Nat} (hne : file ≠ [])
+    {st : St} (hinv : Inv file af0 nBins nMag st) (ops : List Op) :
+    ∀ o ∈ run st ops, ∀ l₁ l₂, o.1 = Out.cats2 l₁ l₂ → l₁ = filtered file af0 ∧ l₂ = filtered file af0 := by
+  rw [refines_spec hne _ st hinv]
+  intro o ho l₁ l₂ hl
+  simp only [spec, List.mem_map] at ho
+  obtain ⟨op, _, rfl⟩ := ho
+  cases op <;> simp [specOut] at hl <;> exact ⟨hl.1.symm, hl.2.symm⟩
+
+/-- what `__next__` does to a raw catalog (forecasts.py:619-625 under `if self.apply_filters:`) -/
+def rawOnce (cfg : Cfg) (af : Bool) (c : RCat) : RCat := if af then filtSeq cfg c else c
+
+theorem filtered_absCat (cfg : Cfg) (raw : List RCat) (af : Bool) :
+    filtered (raw.map (absCat cfg)) af = (raw.map (rawOnce cfg af)).map (absCat cfg) := by
+  simp only [filtered, List.map_map]
+  apply List.map_congr_left
+  intro c _
+  cases af <;> simp [applyOnce, rawOnce, absCat_filtSeq]
+
+/-- **refinement down to the three configured filters**: for raw catalogs whose events record what
+    `filter(self.filters)`, `apply_mct` and `filter_spatial` each decide, every history on the forecast yields the
+    raw catalogs pushed ONCE through the code's filter sequence (`filtSeq`, statement by statement) -/
+theorem refines_spec_cfg (cfg : Cfg) (raw : List RCat) (hne : raw ≠ []) (af : Bool) (nBins nMag : Nat)
+    {st : St} (hinv : Inv (raw.map (absCat cfg)) af nBins nMag st) (ops : List Op) :
+    run st ops = spec ((raw.map (rawOnce cfg af)).map (absCat cfg)) nBins nMag ops := by
+  have hne' : raw.map (absCat cfg) ≠ [] := by simpa using hne
+  rw [refines_spec hne' ops st hinv, filtered_absCat]
+
+/-- every catalog handed out by any pass of any history holds exactly the events satisfying ALL configured
+    predicates and none of the others, in the original order: switched-off filters (`apply_mct=False`, no statements,
+    `filter_spatial=False`) are not applied, switched-on ones are applied to every catalog of every pass -/
+theorem cfg_filters_exactly_once (cfg : Cfg) (raw : List RCat) (hne : raw ≠ []) (nBins nMag : Nat)
+    {st : St} (hinv : Inv (raw.map (absCat cfg)) true nBins nMag st) (ops : List Op) :
+    ∀ o ∈ run st ops, ∀ l, o.1 = Out.cats l →
+      l = raw.map (fun c => absCat cfg { c with events := c.events.filter (keepOf cfg) }) := by
+  rw [refines_spec_cfg cfg raw hne true nBins nMag hinv]
+  intro o ho l hl
+  simp only [spec, List.mem_map] at ho
+  obtain ⟨op, _, rfl⟩ := ho
+  have : l = (raw.map (rawOnce cfg true)).map (absCat cfg) := by
+    cases op <;> simp only [specOut, Out.cats.injEq, reduceCtorEq] at hl <;> exact hl.symm
+  subst this
+  simp [rawOnce, filtSeq_eq, List.map_map, Function.comp_def]
+
+/-- the order in which the three filters are written in `__next__` is immaterial (a harmless rewrite): any two
+    configurations that switch on the same filters give the same catalogs — stated as: the result only depends on
+    the conjunction `keepOf` -/
+theorem filter_order_irrelevant (cfg : Cfg) (c : RCat) :
+    (filtSeq cfg c).events = (((c.events.filter (fun e => !cfg.filterSpatial || e.ps)).filter
+      (fun e => !cfg.applyMct || e.pm)).filter (fun e => !cfg.hasFilters || e.pf)) := by
+  rw [filtSeq_events]
+  simp only [List.filter_filter]
+  apply List.filter_congr
+  intro e _
+  simp only [keepOf]
+  cases cfg.hasFilters <;> cases cfg.applyMct <;> cases cfg.filterSpatial <;>
+    cases e.pf <;> cases e.pm <;> cases e.ps <;> rfl
+
+/-- outside the hypotheses of `refines_spec_list`, completely characterised: an in-memory list constructed with an
+    `n_cat` that is not its length fails the `assert` of `__next__` in EVERY operation of every history, and the
+    forecast keeps reporting the user's number -/
+theorem list_wrong_ncat_always_fails (cats : List Cat) (m : Nat) (hm : m ≠ cats.length) (af : Bool)
+    (nBins nMag : Nat) (ops : List Op) :
+    run (initList cats (some m) af nBins nMag) ops = ops.map (fun _ => (Out.error, some m)) := by
+  have hp0 : fullPass (initList cats (some m) af nBins nMag) = none := by
+    have : (some m : Option Nat) ≠ some cats.length := by simpa using hm
+    simp [fullPass, passLoop, next, initList, this]
+  have her : (initList cats (some m) af nBins nMag).expectedRates = none := rfl
+  have hec : (initList cats (some m) af nBins nMag).eventCounts.length = 0 := rfl
+  have hstep : ∀ op, step (initList cats (some m) af nBins nMag) op = (initList cats (some m) af nBins nMag, Out.error) := by
+    intro op
+    cases op <;> simp [step, withRates, getExpectedRates, getEventCounts, hp0, her, hec]
+  induction ops with
+  | nil => rfl
+  | cons op ops ih =>
+    simp only [run, hstep, List.map_cons]
+    rw [ih]
+    rfl
+
+/-! ### round 4: the known finding D27 in general — what exactly an aborted pass leaves behind -/
+
+private theorem split_at {α} (l : List α) (k : Nat) (hk0 : 0 < k) (hk : k ≤ l.length) :
+    ∃ c mid post, l = c :: mid ++ post ∧ mid.length + 1 = k ∧ post = l.drop k := by
+  have hlenk : (l.take k).length = k := by simp [List.length_take]; omega
+  match htk : l.take k with
+  | [] => simp [htk] at hlenk; omega
+  | c :: mid =>
+    refine ⟨c, mid, l.drop k, ?_, by simpa [htk] using hlenk, rfl⟩
+    rw [← htk, List.take_append_drop]
+
+/-- **aborted pass, every forecast, every cut** (the general form of the kernel-checked witness
+    `finding_aborted_pass_not_restarted`): after a pass that stopped behind `k` catalogs (0 < k ≤ n: an exception in
+    the loop body, a `break`, bare `next()` calls) the NEXT complete for-loop yields exactly the remaining
+    `n − k` once-filtered catalogs — not all `n` — for an in-memory list, a cached stream and a re-read stream alike.
+    That loop repairs everything: afterwards the invariant holds again (so by `refines_spec` every later history is
+    the specification's), `n_cat` is right, and the recorded event counts are those of one full pass. -/
+theorem aborted_pass_characterised {file : List Cat} {af0 : Bool} {nBins nMag : Nat} {st : St}
+    (hinv : Inv file af0 nBins nMag st) (k : Nat) (hk0 : 0 < k) (hk : k ≤ file.length) :
+    ∃ st', fullPass (nextN k st) = some (st', (filtered file af0).drop k) ∧ Inv file af0 nBins nMag st' ∧
+      st'.eventCounts = (filtered file af0).map (·.events.length) ∧ st'.nCat = some file.length := by
+  obtain ⟨hfile, hnb, hnm, hidx, hmode, hec, her⟩ := hinv
+  obtain ⟨file', catalogs, isGen, cache, store, af, nCat, idx, ec, er, nb, nm⟩ := st
+  simp only at hfile hnb hnm hidx hmode hec her
+  subst hfile hnb hnm hidx
+  rcases hmode with ⟨hg, hn, hcat⟩ | ⟨hg, hcat, hcache, haf, _⟩
+  · -- in-memory list (or the cache swapped in)
+    subst hg hn
+    have hlen : catalogs.length = file'.length := by
+      have := congrArg List.length hcat; simpa [filtered] using this
+    obtain ⟨c, mid, post, hsplit, hmid, hpost⟩ := split_at catalogs k hk0 (by omega)
+    subst hsplit
+    have h1 := nextN_list mid c [] post
+      { file := file', catalogs := c :: mid ++ post, isGen := false, cache := cache, store := store, applyFilters := af,
+        nCat := some (c :: mid ++ post).length, idx := 0, eventCounts := ec, expectedRates := er, nBins := nb,
+        nMag := nm } rfl rfl rfl rfl
+    simp only [List.nil_append, List.length_nil, Nat.zero_add, ecEff, ↓reduceIte] at h1
+    rw [← hmid, h1]
+    have h2 := list_loop post ((c :: mid).map (fstep af))
+      { file := file', catalogs := (c :: mid).map (fstep af) ++ post, isGen := false, cache := cache, store := store,
+        applyFilters := af, nCat := some (c :: mid ++ post).length, idx := mid.length + 1,
+        eventCounts := ((c :: mid).map (fstep af)).map (·.events.length), expectedRates := er, nBins := nb, nMag := nm }
+      [] (((c :: mid).map (fstep af) ++ post).length + file'.length + 2) rfl rfl (by simp) (by simp) (by simp; omega)
+    simp only [List.nil_append, ecEff, Nat.add_one_ne_zero, ↓reduceIte] at h2
+    have hdrop : (filtered file' af0).drop (mid.length + 1) = post.map (fstep af) := by
+      rw [← hcat]; simp [List.drop_append]
+    rw [hdrop]
+    refine ⟨_, h2, ⟨rfl, rfl, rfl, rfl, ?_, Or.inr ?_, her⟩, ?_, ?_⟩
+    · left
+      refine ⟨rfl, ?_, ?_⟩
+      · simp
+      · simp only
+        rw [← hcat]
+        simp [List.map_map, Function.comp_def, fstep_idem]
+    · simp only; rw [← hcat]; simp
+    · simp only; rw [← hcat]; simp
+    · simp only; rw [← hlen]
+  · -- generator
+    subst hg hcache haf
+    obtain rfl : catalogs = file' := hcat
+    obtain ⟨c, mid, post, hsplit, hmid, hpost⟩ := split_at catalogs k hk0 hk
+    subst hsplit
+    have hdrop : (filtered (c :: mid ++ post) af).drop (mid.length + 1) = post.map (fstep af) := by
+      simp [filtered, fstep_eq_applyOnce, List.drop_append]
+    rw [← hmid, hdrop]
+    cases store
+    · -- re-read on each pass
+      have h1 := nextN_gen mid c post
+        { file := c :: mid ++ post, catalogs := c :: mid ++ post, isGen := true, cache := [], store := false,
+          applyFilters := af, nCat := nCat, idx := 0, eventCounts := ec, expectedRates := er, nBins := nb, nMag := nm }
+        rfl rfl
+      simp only [Nat.zero_add, ecEff, ↓reduceIte, Bool.false_eq_true, List.nil_append] at h1
+      rw [h1]
+      have hfp := gen_loop post
+        { file := c :: mid ++ post, catalogs := post, isGen := true, cache := [], store := false,
+          applyFilters := af, nCat := nCat, idx := mid.length + 1,
+          eventCounts := ((c :: mid).map (fstep af)).map (·.events.length), expectedRates := er, nBins := nb,
+          nMag := nm }
+        [] (post.length + (c :: mid ++ post).length + 2) rfl rfl (by omega)
+      refine ⟨_, hfp, ⟨by simp [afterStop, genDone], by simp [afterStop, genDone], by simp [afterStop, genDone],
+        by simp [afterStop, genDone], ?_, Or.inr ?_, by simpa [afterStop, genDone] using her⟩, ?_, ?_⟩
+      · right
+        simp [afterStop, genDone]
+        right; omega
+      · simp [afterStop, genDone, ecEff, filtered, fstep_eq_applyOnce]
+      · simp [afterStop, genDone, ecEff, filtered, fstep_eq_applyOnce]
+      · simp [afterStop, genDone]; omega
+    · -- cached
+      have h1 := nextN_gen mid c post
+        { file := c :: mid ++ post, catalogs := c :: mid ++ post, isGen := true, cache := [], store := true,
+          applyFilters := af, nCat := nCat, idx := 0, eventCounts := ec, expectedRates := er, nBins := nb, nMag := nm }
+        rfl rfl
+      simp only [Nat.zero_add, ecEff, ↓reduceIte, List.nil_append] at h1
+      rw [h1]
+      have hfp := gen_loop post
+        { file := c :: mid ++ post, catalogs := post, isGen := true, cache := (c :: mid).map (fstep af), store := true,
+          applyFilters := af, nCat := nCat, idx := mid.length + 1,
+          eventCounts := ((c :: mid).map (fstep af)).map (·.events.length), expectedRates := er, nBins := nb,
+          nMag := nm }
+        [] (post.length + (c :: mid ++ post).length + 2) rfl rfl (by omega)
+      refine ⟨_, hfp, ⟨by simp [afterStop, genDone], by simp [afterStop, genDone], by simp [afterStop, genDone],
+        by simp [afterStop, genDone], ?_, Or.inr ?_, by simpa [afterStop, genDone] using her⟩, ?_, ?_⟩
+      · left
+        simp only [afterStop, genDone, filtered]
+        refine ⟨rfl, by simp; omega, ?_⟩
+        simp [fstep, applyOnce, List.map_map, Function.comp_def]
+        rfl
+      · simp [afterStop, genDone, ecEff, filtered, fstep_eq_applyOnce]
+      · simp [afterStop, genDone, ecEff, filtered, fstep_eq_applyOnce]
+      · simp [afterStop, genDone]; omega
+
 /-! ### non-vacuity: concrete histories evaluated by the kernel -/
 
 def ev (k : Bool) (c : Nat) : Ev := { keep := k, cell := c }
@@ -392,6 +621,25 @@ example : (run (initStream demoNone true true 4 2) [.fullPass, .getExpectedRates
     = [.cats (filtered demoNone true), .rates [1, 0, 0, 2] 3] := by decide +kernel
 example : demoNone = demoNone.map (repay (fun _ => none) id id) := by decide +kernel
 
+-- round 4: the magnitude filter, apply_mct and the spatial filter configured together; catalog 0 loses one event to
+-- each of them; the MLL test (rates + two passes) sits between two passes; the user passed n_cat = 7 for 3 catalogs
+def demoRaw : List RCat :=
+  [{ id := some 0, events := [{ pf := false, pm := true, ps := true, cell := 0 }, { pf := true, pm := false, ps := true, cell := 1 },
+      { pf := true, pm := true, ps := false, cell := 2 }, { pf := true, pm := true, ps := true, cell := 3 }] },
+   { id := some 1, events := [] },
+   { id := some 2, events := [{ pf := true, pm := true, ps := true, cell := 1 }] }]
+def cfgAll : Cfg := { hasFilters := true, applyMct := true, filterSpatial := true }
+example : run (initStreamN (demoRaw.map (absCat cfgAll)) true true (some 7) 4 2)
+      [.fullPass, .mllMagnitudeTest, .pseudolikelihoodTest, .getEventCounts]
+    = spec ((demoRaw.map (rawOnce cfgAll true)).map (absCat cfgAll)) 4 2
+      [.fullPass, .mllMagnitudeTest, .pseudolikelihoodTest, .getEventCounts] := by decide +kernel
+example : (run (initStreamN (demoRaw.map (absCat cfgAll)) false true (some 1) 4 2) [.getEventCounts, .getExpectedRates]).map
+    (fun o => (match o.1 with | .counts l => l | .rates d _ => d | _ => [], o.2))
+    = [([1, 0, 1], some 3), ([0, 1, 0, 1], some 3)] := by decide +kernel
+-- apply_mct switched off: the event only `apply_mct` would remove stays
+example : ((demoRaw.map (rawOnce { cfgAll with applyMct := false } true)).map (·.events.length)) = [2, 0, 1] := by
+  decide +kernel
+
 /-! ### finding (current code): an aborted pass is not restarted
 
 `get_expected_rates()` raises ValueError inside its pass when a catalog has an event outside the region (spatial
@@ -408,6 +656,12 @@ theorem finding_aborted_pass_not_restarted :
     (fullPass (nextN 2 (initStream demo false false 4 2))).map (·.2) = some (demo.drop 2) ∧
     demo.drop 2 ≠ filtered demo false := by
   decide +kernel
+
+/-- the witness of `finding_aborted_pass_not_restarted` is an instance: three catalogs, cut behind the second -/
+example : ∃ st', fullPass (nextN 2 (initStream demo true false 4 2)) = some (st', (filtered demo false).drop 2) ∧
+    Inv demo false 4 2 st' ∧ st'.eventCounts = (filtered demo false).map (·.events.length) ∧
+    st'.nCat = some demo.length :=
+  aborted_pass_characterised (file := demo) (inv_initStream demo true false 4 2) 2 (by omega) (by decide)
 
 /-- the loop after that is complete again -/
 example : ((fullPass (nextN 2 (initList demo none false 4 2))).bind (fun r => fullPass r.1)).map (·.2)
